@@ -1,13 +1,22 @@
-"""C12 — decided per scheduling policy; see _planner_props.py and harness/planners/."""
+"""C12 — decided per scheduling policy; see _planner_props.py and harness/planners/.  The last sentence of the property
+("in runs of those planners with exact runtimes, every task that completes does so by its deadline") is judged on
+end-to-end runs of the real Simulator under the real ILP / TetriSched planners: see _e2e_common.run_planner_pass and
+docs/e2e_planners.md."""
+import json
+
 from harness import common
+from harness.suites import _e2e_common as e2e
 from harness.suites import _planner_props as pp
 
-TECHNIQUE = "Lean 4 theorems over generated constraint systems / policy models; model tied to /repo by comparing the captured solver model and returned Placements on generated scheduler inputs"
+TECHNIQUE = "Lean 4 theorems over generated constraint systems / policy models; model tied to /repo by comparing the captured solver model and returned Placements on generated scheduler inputs; end-to-end runs of the real simulator under the real planners replayed through the Lean simulator model (decision tape) with run-level deadline oracles"
 
 
 def run(chk: common.Check):
     pp.run_prop(chk, "C12")
+    e2e.run_planner_pass(chk, "C12", n_quick=400, n_thorough=3000)
 
 
 def replay(path) -> int:
+    if json.load(open(path)).get("suite") == "sim":
+        return e2e.replay("C12", path)
     return pp.replay("C12", path)
